@@ -38,6 +38,8 @@ def run_history(case, rec, m, quits, root, u, label_cls=()):
         cls.append('quit_inside_markov_level')
     if inside and len(sm['saved_positions']) >= 2:
         cls.append('later_cycle_after_markov_quit')
+    if sm.get('neighbour_runs'):
+        cls.append('neighbour_session_between_runs')
     rec.case({'quits': quits, 'runs': sm['runs'], 'U': len(u.lines),
               'markov_segments': [(s, e) for s, e, mk, _ in segments(u) if mk]}, inside > 0, cls, key=[m, quits])
 
@@ -75,7 +77,12 @@ def prop_every(case, rec):
 @st.composite
 def cases(draw, max_pt=10):
     m = draw(S.rulesets(max_pt=max_pt, markov='yes', max_structs=2, families=['count', 'float', 'tenths', 'dyadic'], rich_levels=True))
-    return {'model': m, 'second': draw(st.lists(st.integers(1, 12), max_size=1)), 'max_total': 50}
+    case = {'model': m, 'second': draw(st.lists(st.integers(1, 12), max_size=1)), 'max_total': 50}
+    if draw(st.integers(0, 2)) == 0:
+        # another session of the same ruleset, with a related name, is quit somewhere else between the runs of this one
+        case['sessions'] = draw(st.sampled_from(histories.SESSION_PAIRS))
+        case['neighbour_quits'] = [draw(st.integers(1, 25)) for _ in range(2)]
+    return case
 
 
 def run_every(rec, seed, shard, nshards, tier):
@@ -95,7 +102,11 @@ def prop_hist(case, rec):
 def hist_cases(draw):
     m = draw(S.rulesets(max_pt=12, markov='yes', max_structs=2, families=['count', 'float', 'tenths', 'dyadic'], rich_levels=True))
     quits = draw(st.lists(st.integers(1, 25), min_size=1, max_size=4))
-    return {'model': m, 'quits': quits}
+    case = {'model': m, 'quits': quits}
+    if draw(st.booleans()):
+        case['sessions'] = draw(st.sampled_from(histories.SESSION_PAIRS))
+        case['neighbour_quits'] = [draw(st.integers(1, 25)) for _ in range(len(quits))]
+    return case
 
 
 def run_hist(rec, seed, shard, nshards, tier):
